@@ -1,6 +1,6 @@
 // C19 driver: feeds scripted integrator outcomes to the *rendered* Naunet::Solve and prints what it did.
-// stdin, one script per line (cvode):   dt y0 mxsteps ncv (flag frac){ncv} nre (ok){nre}
-//                          (odeint):   dt y0 mxsteps nsteps
+// stdin, one script per line (cvode):   dt y0 mxsteps reset_mxsteps ncv (flag frac){ncv} nre (ok){nre}
+//                          (odeint):   dt y0 mxsteps reset_mxsteps nsteps          (reset_mxsteps < 0: no Reset call)
 // stdout per script:  flag y_first y_min y_max logged_y0_or_nan
 #include <stdio.h>
 #include <stdlib.h>
@@ -30,8 +30,8 @@ static long size_of(const char *path) {
 
 int main() {
     const char *errfile = "naunet_error_record.txt";
-    double dt, y0; int mx;
-    while (scanf("%lf %lf %d", &dt, &y0, &mx) == 3) {
+    double dt, y0; int mx, rmx;     // rmx >= 0: Init(.., mx) is followed by Reset(1, .., rmx) before Solve
+    while (scanf("%lf %lf %d %d", &dt, &y0, &mx, &rmx) == 4) {
 #ifdef C19_ODEINT
         int ns; if (scanf("%d", &ns) != 1) return 2;
         shim_odeint_nsteps = ns;
@@ -47,6 +47,7 @@ int main() {
         long off = size_of(errfile);
         Naunet n;
         n.Init(1, 1e-20, 1e-5, mx);
+        if (rmx >= 0) n.Reset(1, 1e-20, 1e-5, rmx);
         NaunetData data = NaunetData();
         double ab[NEQUATIONS];
         for (int i = 0; i < NEQUATIONS; i++) ab[i] = y0;
